@@ -123,8 +123,16 @@ fn run1<T: Flt>(src: &mut Src, obs: &mut Obs) -> Result<(), Fail> {
     if !x.windows(2).all(|w| w[0] < w[1]) {
         return Ok(());
     }
-    let lanes = src.usize_in(1, 4);
-    let trailing = if lanes == 1 && src.bool() { vec![] } else { vec![lanes] };
+    // trailing shape: none, one axis, or two / three axes (per-lane boundary arrays of rank >= 3)
+    let trailing: Vec<usize> = match src.below(6) {
+        0 => vec![],
+        1 | 2 => vec![src.usize_in(1, 4)],
+        3 => vec![2, src.usize_in(1, 2)],
+        4 => vec![src.usize_in(1, 2), 2],
+        _ => vec![2, 1, 2],
+    };
+    let lanes: usize = trailing.iter().product();
+    obs.class(format!("trailing_axes16:{}", trailing.len()));
     let (x0, xn) = (Rat::from_f64(x[0]), Rat::from_f64(x[n - 1]));
     // whole-set selection or Individual
     let whole = if linear { 9 } else { src.weighted(&[3, 1, 1, 1, 8]) }; // NotAKnot, Natural, Clamped, Periodic, Individual
